@@ -162,7 +162,10 @@ def run(ctx):
                     break
     r["failures"] += named
     cov["source_facts"] = {"regenerated_orders": (meta or {}).get("orders"), "prune_early_guard": (meta or {}).get("prune_early_guard"),
-                           "soft_pin_misses": (meta or {}).get("soft_pin_misses"), "call_sites": len((meta or {}).get("call_sites", []))}
+                           "soft_pin_misses": (meta or {}).get("soft_pin_misses"),
+                           "error_propagation": {k: ({"sites": len(v), "dropped": [x["call"] for x in v if not x["propagated"]]} if k != "writer"
+                                                     else {"facts": len(v), "missing": [x["fact"] for x in v if not x["holds"]]})
+                                                 for k, v in ((meta or {}).get("propagation") or {}).items()}, "call_sites": len((meta or {}).get("call_sites", []))}
     cov["trusted_base"] += ["props/C03/extract.py (reads the textual order and the option guards of the storage-effect call sites of each command function; unrecognised call sites fail loudly)"]
     cov["trusted_base"] += [
         "harness/src/bin/c03.rs: decoding of recorded payloads through the repository's own readers (IndexFile/SnapshotFile via get_file, tree walk via get_tree, pack headers via the C08 hook header_from_file) and the complete read of every visible snapshot (all trees, all file blobs, fresh handle, no cache)",
